@@ -5,6 +5,7 @@ cd "$(dirname "$0")/.."
 wt=${SEED_WT:-/tmp/scratch/seedwt}
 [ -d $wt ] || git -C /repo worktree add -q --detach $wt HEAD
 for p in "$@"; do
+  p=$(readlink -f "$p")
   git -C $wt checkout -q --detach $(git -C /repo rev-parse HEAD) 2>/dev/null; git -C $wt checkout -q -- . ; git -C $wt clean -fdq
   if ! git -C $wt apply "$p" 2>/dev/null; then echo "$p: PATCH-DOES-NOT-APPLY"; continue; fi
   out=$(bin/frugalvet -repo $wt -prop ALL -replaydir /tmp/scratch/seedreplay 2>&1)
